@@ -94,16 +94,17 @@ class Conc:
 
 CONTAINERS = {
     "file": [("blocks", "block"), ("sections", "section")],
-    "block": [("groups", "group"), ("data_arrays", "array"), ("tags", "tag"),
+    "block": [("groups", "group"), ("data_arrays", "array"), ("data_frames", "frame"), ("tags", "tag"),
               ("multi_tags", "mtag"), ("sources", "source")],
     "tag": [("features", "feature")],
     "mtag": [("features", "feature")],
     "source": [("sources", "source")],
     "section": [("props", "property"), ("sections", "section")],
 }
-LISTS = {"group": ["data_arrays", "tags", "multi_tags", "sources"], "array": ["sources"],
+LISTS = {"group": ["data_arrays", "data_frames", "tags", "multi_tags", "sources"], "array": ["sources"],
          "tag": ["references", "sources"], "mtag": ["references", "sources"]}
-HAS_META = {"block", "group", "array", "tag", "mtag", "source"}
+HAS_META = {"block", "group", "array", "frame", "tag", "mtag", "source"}
+FRAME_ROWS = [(1, "x"), (2, "ü"), (3, "")]
 
 
 def expected(state, conc):
@@ -135,6 +136,8 @@ def expected(state, conc):
             d["metadata"] = alias(o["rl"]["metadata"])
         if k == "array":
             d["data"] = conc.data(o["dtok"])
+        if k == "frame":
+            d["rows"] = [list(r) for r in FRAME_ROWS]
         if k == "mtag":
             d["positions"] = alias(o["rl"]["positions"]) or "MISSING"
             d["extents"] = alias(o["rl"]["extents"])
@@ -211,7 +214,7 @@ def project(nf, reg):
             return None
         d = {"eid": _safe(lambda: reg.token(e.id)), "name": _safe(lambda: e.name),
              "type": _safe(lambda: e.type), "definition": _safe(lambda: e.definition)}
-        if hasattr(e, "data_extent"):
+        if type(e).__name__ == "DataArray":
             d["data"] = _safe(lambda: _listify(e[:]))
         return d
 
@@ -265,6 +268,12 @@ def project(nf, reg):
         d["links:sources"] = links(lambda: a.sources)
         return d
 
+    def frame(fr):
+        d = common(fr)
+        d["metadata"] = alias(lambda: fr.metadata)
+        d["rows"] = _safe(lambda: [[int(r["a"]), str(r["b"])] for r in fr[:]])
+        return d
+
     def tag(t, multi=False):
         d = common(t)
         d["metadata"] = alias(lambda: t.metadata)
@@ -281,6 +290,7 @@ def project(nf, reg):
         d["metadata"] = alias(lambda: b.metadata)
         d["groups"] = children(lambda: b.groups, group)
         d["data_arrays"] = children(lambda: b.data_arrays, array)
+        d["data_frames"] = children(lambda: b.data_frames, frame)
         d["tags"] = children(lambda: b.tags, tag)
         d["multi_tags"] = children(lambda: b.multi_tags, lambda t: tag(t, True))
         d["sources"] = children(lambda: b.sources, source)
@@ -312,8 +322,10 @@ def expected_shallow(state, conc):
             d["values"] = conc.pvalues(o["dtok"])
         for ln in LISTS.get(k, ()):
             d["links:" + ln] = ["e%d" % objs[x]["eid"] for x in o["ls"][ln] if x in objs]
+            d["links:" + ln + "@pos"] = d["links:" + ln] + d["links:" + ln][-1:]
         for cname, ckind in CONTAINERS.get(k, ()):
             d[cname] = ["e%d" % c["eid"] for c in state["objs"] if c["owner"] == o["id"] and c["kind"] == ckind]
+            d[cname + "@pos"] = d[cname] + d[cname][-1:]
         if k in HAS_META:
             m = o["rl"]["metadata"]
             d["metadata"] = None if not m or m not in objs else "e%d" % objs[m]["eid"]
@@ -418,7 +430,7 @@ class Session:
     def container_of(self, owner, kind):
         parent = self.nf if owner == 0 else self.obj(owner)
         attr = {"block": "blocks", "section": "sections", "group": "groups", "array": "data_arrays",
-                "tag": "tags", "mtag": "multi_tags", "source": "sources", "feature": "features",
+                "frame": "data_frames", "tag": "tags", "mtag": "multi_tags", "source": "sources", "feature": "features",
                 "property": "props"}[kind]
         return getattr(parent, attr)
 
@@ -488,6 +500,8 @@ class Session:
                         cont = getattr(h, cname)
                         for m in cont:
                             _ = m.id in cont
+                        if len(cont):
+                            _ = cont[0], cont[-1]
                     except Exception:  # noqa
                         pass
         try:
@@ -514,10 +528,15 @@ class Session:
             d["data"] = _safe(lambda: _listify(h[:]))
         if kind == "property":
             d["values"] = _safe(lambda: [int(v) for v in h.values])
+        def bypos(cont):
+            n = len(cont)
+            return [reg.token(cont[i].id) for i in range(n)] + ([reg.token(cont[-1].id)] if n else [])
         for ln in LISTS.get(kind, ()):
             d["links:" + ln] = _safe(lambda ln=ln: [reg.token(m.id) for m in getattr(h, ln)])
+            d["links:" + ln + "@pos"] = _safe(lambda ln=ln: bypos(getattr(h, ln)))
         for cname, _k in CONTAINERS.get(kind, ()):
             d[cname] = _safe(lambda cname=cname: [reg.token(m.id) for m in getattr(h, cname)])
+            d[cname + "@pos"] = _safe(lambda cname=cname: bypos(getattr(h, cname)))
         if kind in HAS_META:
             d["metadata"] = _safe(lambda: None if h.metadata is None else reg.token(h.metadata.id))
         return d
@@ -566,6 +585,10 @@ class Session:
                     h = parent.create_group(nm, tp)
                 elif k == "array":
                     h = parent.create_data_array(nm, tp, data=self.conc.data(0))
+                elif k == "frame":
+                    from collections import OrderedDict
+                    h = parent.create_data_frame(nm, tp, col_dict=OrderedDict([("a", np.int64), ("b", str)]),
+                                                 data=FRAME_ROWS)
                 elif k == "tag":
                     h = parent.create_tag(nm, tp, [1.0, 2.0])
                 elif k == "source":
@@ -676,6 +699,8 @@ class Session:
                     ret = dest.create_block(name=nm_, copy_from=src, keep_copy_id=keep)
                 elif k == "array":
                     ret = dest.create_data_array(name=nm_, copy_from=src, keep_copy_id=keep)
+                elif k == "frame":
+                    ret = dest.create_data_frame(name=nm_, copy_from=src, keep_copy_id=keep)
                 elif k == "tag":
                     ret = dest.create_tag(name=nm_, copy_from=src, keep_copy_id=keep)
                 elif k == "mtag":
@@ -780,6 +805,9 @@ class Session:
             parent.create_group(nm, tp)
         elif k == "array":
             parent.create_data_array(nm, tp, data=self.conc.data(0))
+        elif k == "frame":
+            from collections import OrderedDict
+            parent.create_data_frame(nm, tp, col_dict=OrderedDict([("a", np.int64), ("b", str)]), data=FRAME_ROWS)
         elif k == "tag":
             parent.create_tag(nm, tp, [1.0])
         elif k == "mtag":
